@@ -366,7 +366,8 @@ def run(ctx):
                                       % (m_, n_, k, float((gx - gr_).abs().max())), {"m": m_, "n": n_, "k": k})
                 except Exception as e:
                     ctx.violation("eiggrad/svd/raise", "svd gradient (%dx%d, k=%d) raised %s: %s" % (m_, n_, k, type(e).__name__, str(e)[:120]), {"m": m_, "n": n_})
-    ctx.replayed = ninj
+    from vlib import operandpattern
+    ctx.replayed = ninj + operandpattern.replay(ctx, ["symeig"], "eiggrad")
     ctx.notes.update(davidson_cases_skipped_for_inaccurate_forward=skipped[0], injection_cases=ninj, table_cases=ntab, tlc_garbage_choices=len(cases))
     ctx.assumptions += [
         "losses are basis-independent inside every degenerate block: sum_b c_b sum_{i in b} lambda_i + w_b tr(P_b G)",
